@@ -906,10 +906,11 @@ def gen_reauth_stale(rng, async_=False):
     pairs = []
     for a, ra in table.items():
         for b, rb in table.items():
-            if not ra or not rb or a == b or ra[1] is None or rb[1] is None:
+            if not ra or not rb or a == b or ra[1] is None:
                 continue
-            dp = [c for c in ra[1] if c not in rb[1]]
-            ds = [c for c in ra[2] if c not in rb[2]]
+            # b's row may lack its channel lists altogether (the key is missing): it is then granted nothing
+            dp = [c for c in ra[1] if c not in (rb[1] or [])]
+            ds = [c for c in ra[2] if c not in (rb[2] or [])]
             if dp or ds:
                 pairs.append((a, b, dp, ds))
     a, b, dp, ds = rng.choice(pairs)
